@@ -381,12 +381,70 @@ fn raw_injection(rep: &mut Report) {
     let _ = &rig.serial;
 }
 
+/// I/O faults at the bridge's own port: a read failure must surface without touching the bus; a failure while writing
+/// the reply back must surface too (the bus replied, so "no frame written and Ok" would be a silent loss).
+fn bridge_faults(rep: &mut Report) {
+    use crate::doubles::{FragReader, FragWriter, ReadFault, WriteAct};
+    let requests = [RefMsg::Hello(3), RefMsg::Query(3), RefMsg::Request(3, O_RECV_CFG), RefMsg::Goodbye(3)];
+    for req in &requests {
+        let line = refs::wire(req);
+        let replies = !matches!(req, RefMsg::Goodbye(_));
+        // (a) read faults at every position of the line
+        for pos in 0..line.len() {
+            for kind in [std::io::ErrorKind::TimedOut, std::io::ErrorKind::Other] {
+                let vbus: VBus = Rc::new(RefCell::new(RecBus::new(population(&[3], &[false]))));
+                let st = doubles::shared(doubles::WEIRD_SETTINGS);
+                let port = InstrPort::scripted(st.clone(), FragReader::new(line.clone(), vec![], vec![(pos, ReadFault::Fail(kind), usize::MAX)]), FragWriter::new(vec![], WriteAct::Accept(usize::MAX)));
+                let mut odk = Odk::try_new(port, SharedBus(vbus.clone())).expect("odk setup");
+                st.borrow_mut().written.clear();
+                let r = catch(|| odk.process_message().map_err(|e| format!("{:?}", e).chars().take(60).collect::<String>()));
+                rep.case(Some(fnv(format!("rf{}{:?}{}", pos, kind, req.show()).as_bytes())));
+                rep.count("bridge_read_faults");
+                let ok = matches!(&r, Ok(Err(e)) if e.starts_with("Communication")) && vbus.borrow().log.is_empty() && st.borrow().written.is_empty();
+                if !ok {
+                    rep.violation(MON_B, "bridge_read_fault_mishandled", &format!("{}@{}", req.show(), pos), format!("read failure ({:?}) at byte {} of [{}]: result {:?}, bus saw {} message(s), {} byte(s) written back", kind, pos, show_bytes(&line), r.as_ref().map_err(|p| p.msg.clone()), vbus.borrow().log.len(), st.borrow().written.len()), J::Null);
+                }
+            }
+        }
+        // (b) write faults at every call index while the reply goes back (chunk sizes 1, 4, all)
+        if replies {
+            for size in [1usize, 4, usize::MAX] {
+                let calls = if size == usize::MAX { 1 } else { 15usize.div_ceil(size) };
+                for j in 0..calls {
+                    for act in [WriteAct::Fail(std::io::ErrorKind::Other), WriteAct::Fail(std::io::ErrorKind::BrokenPipe), WriteAct::Zero] {
+                        let vbus: VBus = Rc::new(RefCell::new(RecBus::new(population(&[3], &[false]))));
+                        let st = doubles::shared(doubles::WEIRD_SETTINGS);
+                        let mut script = vec![WriteAct::Accept(size); j];
+                        script.push(act);
+                        let port = InstrPort::scripted(st.clone(), FragReader::plain(line.clone()), FragWriter::new(script, WriteAct::Accept(size)));
+                        let mut odk = Odk::try_new(port, SharedBus(vbus.clone())).expect("odk setup");
+                        st.borrow_mut().written.clear();
+                        let r = catch(|| odk.process_message().map_err(|e| format!("{:?}", e).chars().take(60).collect::<String>()));
+                        rep.case(Some(fnv(format!("wf{}{}{:?}{}", size, j, act, req.show()).as_bytes())));
+                        rep.count("bridge_write_faults");
+                        let reply = vbus.borrow().log.last().and_then(|e| e.reply.clone().ok()).flatten();
+                        let full = reply.as_ref().map(refs::wire).unwrap_or_default();
+                        let written = st.borrow().written.clone();
+                        let surfaced = matches!(&r, Ok(Err(_)));
+                        if reply.is_none() {
+                            rep.violation(MON_B, "bridge_fault_workload", &req.show(), "the virtual bus did not reply (workload error)".into(), J::Null);
+                        } else if !surfaced || !full.starts_with(&written) || written == full {
+                            rep.violation(MON_B, "bridge_write_fault_swallowed", &format!("{}|{}|{}|{:?}", req.show(), size, j, act), format!("the bus replied {} but writing it back failed at call {} ({:?}, {} byte(s) per call): result {:?}, [{}] reached the wire", show_opt(&reply), j, act, size, r.as_ref().map_err(|p| p.msg.clone()), show_bytes(&written)), J::Null);
+                        }
+                    }
+                }
+            }
+        }
+    }
+}
+
 pub fn run(ctx: &Ctx) -> Outcome {
     let n = ctx.size(400, 4_000) as usize;
     // nearly all the time is pacing sleeps: many more workers than cores
     let report = run_sharded_on(48, n + 1, |i, rep| {
         if i == n {
             raw_injection(rep);
+            bridge_faults(rep);
         } else {
             scenario(ctx, i as u64, rep);
         }
@@ -399,6 +457,7 @@ pub fn run(ctx: &Ctx) -> Outcome {
         floor("reconfiguration as another type", report.get("reconfigured_as_another_type") > 0, report.get("reconfigured_as_another_type")),
         floor("raw lines injected at the bridge", report.get("raw_lines_injected") > 300, report.get("raw_lines_injected")),
         floor("undecodable lines at the bridge", report.get("bridge_undecodable_lines") > 100, report.get("bridge_undecodable_lines")),
+        floor("I/O faults at the bridge's own port (read fault at every byte, write fault at every call)", report.get("bridge_read_faults") > 100 && report.get("bridge_write_faults") > 50, report.get("bridge_write_faults")),
         floor("bridge pumps checked", report.get("bridge_pumps_checked") > 1000, report.get("bridge_pumps_checked")),
     ];
     Outcome {
